@@ -14,7 +14,7 @@ except KeyError:  # `meta` fails to import its decompiler on newer CPython; `met
 from doctrans import emit, parse
 from doctrans.ast_utils import RewriteAtQuery, find_in_ast, get_function_type
 from doctrans.pure_utils import pluralise, strip_split
-from doctrans.source_transformer import ast_parse
+from doctrans.source_transformer import ast_parse, to_code
 
 
 def _default_options(node, search, type_wanted):
@@ -182,7 +182,9 @@ def _conform_filename(
     )
 
     replaced = False
-    if not cmp_ast(original_node, replacement_node):
+    # Compare both sides as parsed from source: constructed nodes lack fields (e.g., `type_params` on Python >= 3.12)
+    # that parsed ones carry, which made equal definitions always compare unequal
+    if not cmp_ast(*map(lambda node: ast_parse(to_code(node)), (original_node, replacement_node))):
         rewrite_at_query = RewriteAtQuery(
             search=search,
             replacement_node=replacement_node,
